@@ -75,6 +75,14 @@ static int gen_variants(int li, unsigned idx, struct var *V) {
             snprintf(t, sizeof t, "%s\xCC\x81", full); ADD(t, 0);                             /* word + combining accent */
             if (n >= 3) { char p[128] = ""; for (int j = 0; j < n; j++) { if (j == 2) strcat(p, "\xE6\x97\xA5"); strcat(p, C[j].base); } ADD(p, 0); }   /* CJK character between letters */
         }
+        /* ASCII bytes that are not lower-case letters are characters like any other: appended, inserted, in front, after a 4-letter prefix */
+        { static const char JUNK[] = "1-.'_0~A@"; 
+          for (const char *j = JUNK; *j; j++) {
+              snprintf(t, sizeof t, "%s%c", full, *j); ADD(t, 0);
+              snprintf(t, sizeof t, "%c%s", *j, full); ADD(t, 0);
+              { char p[128] = ""; strcat(p, C[0].base); strcat(p, C[0].marks); size_t l = strlen(p); p[l] = *j; p[l + 1] = 0; for (int i = 1; i < n; i++) { strcat(p, C[i].base); strcat(p, C[i].marks); } ADD(p, 0); }
+              if (n > 4) { char p[128] = ""; for (int i = 0; i < 4; i++) strcat(p, C[i].base); size_t l = strlen(p); p[l] = *j; p[l + 1] = 0; ADD(p, 0); }
+          } }
         /* upper case is not folded */
         { char u[128]; strcpy(u, full); if (u[0] >= 'a' && u[0] <= 'z') { u[0] -= 32; ADD(u, 0); } }
     } else {
